@@ -332,7 +332,14 @@ fn parts(ctx: &Ctx) -> Vec<PartSpec> {
         for s in ["S1", "S2", "S2b", "S3", "S3b", "S3c", "S4", "S4h"] {
             v.push(PartSpec::new(&format!("{}-pb2", s), json!({"scn": s, "pb": 2})).budget(40.0));
         }
+        // E2: C11 memory model (incl. the epoch reclamation's own atomics), 2 threads at bound 1, 3 threads at bound 0
+        for (s, pb) in [("push_clear", 1), ("push_snap", 1), ("handover_clear", 1), ("full_push_clear", 1), ("handover_push_push", 1), ("push_clear_snap", 0), ("push_clear_clear", 0), ("push_push_clear", 0), ("handover_push_push_clear", 0)] {
+            v.push(PartSpec::new(&format!("loom-{}-pb{}", s, pb), json!({"loom": s, "pb": pb})).budget(55.0));
+        }
     } else {
+        for (s, pb, b) in [("push_clear", 2, 900.0), ("push_snap", 2, 1500.0), ("handover_clear", 2, 1500.0), ("full_push_clear", 2, 1500.0), ("handover_push_push", 2, 1500.0), ("handover_snap", 1, 900.0), ("push_clear_snap", 1, 1500.0), ("push_clear_clear", 1, 1500.0), ("push_push_clear", 1, 1500.0), ("handover_push_push_clear", 1, 1500.0)] {
+            v.push(PartSpec::new(&format!("loom-{}-pb{}", s, pb), json!({"loom": s, "pb": pb})).budget(b));
+        }
         for s in ["S1", "S2", "S2b", "S3", "S3b", "S3c", "S3d", "S4", "S4h"] {
             v.push(PartSpec::new(&format!("{}-pb3", s), json!({"scn": s, "pb": 3})).budget(900.0));
         }
@@ -345,6 +352,10 @@ fn parts(ctx: &Ctx) -> Vec<PartSpec> {
 
 fn run(ctx: &Ctx, spec: &PartSpec) -> PartResult {
     let mut res = PartResult::new(&spec.name, "E1");
+    if let Some(s) = spec.arg["loom"].as_str() {
+        vcore::loompart::run_bucket_with_budget(s, spec.arg["pb"].as_u64(), ctx.budget_s, &mut res);
+        return res;
+    }
     let scn = spec.arg["scn"].as_str().unwrap_or("S1").to_string();
     let pb = spec.arg["pb"].as_u64().unwrap_or(2) as usize;
     let cfg = Cfg { max_bound: pb, horizon: 20000 };
@@ -363,8 +374,8 @@ fn main() {
     driver::main(CheckDef {
         prop: "C05",
         level: "model_checking",
-        rule: "every interleaving (at atomic-operation granularity, sequentially consistent) of 3 real threads over the real AtomicBucket with at most pb preemptions; scenarios: 2 pushers x 2 pushes || clearer, pusher || reader(data_with,is_empty,data) || clearer, each also with 63/62 pre-filled slots so the racing pushes straddle the block hand-over, and with a destructor-carrying payload; distinct = distinct (clear deliveries, snapshots, is_empty answers) outcome",
-        assumptions: &["sequential consistency (weak-memory reorderings are not explored)", "scheduling points = every facade atomic / epoch-pointer operation + the slot write; other code between two points runs atomically", "BLOCK_SIZE = 64"],
+        rule: "E2: loom 0.7.2 explores every C11 execution (which store each load reads, preemption-bounded) of the repository's own bucket.rs with crossbeam-epoch / crossbeam-utils compiled in their loom mode, every slot access tracked: pusher(2) || clearer, pusher(2) || snapshot reader + is_empty, two pushers || clearer, pusher || clearer || snapshot / second clearer, each also with 63 / 64 pre-filled slots (block hand-over inside the window); oracle: multiset conservation over all clears + final drain, per-block push order, snapshots show no fabricated / duplicated value and every completed push, and loom's own report of slot accesses not ordered by happens-before; E1: every interleaving (at atomic-operation granularity, sequentially consistent) of 3 real threads over the real AtomicBucket with at most pb preemptions; scenarios: 2 pushers x 2 pushes || clearer, pusher || reader(data_with,is_empty,data) || clearer, each also with 63/62 pre-filled slots so the racing pushes straddle the block hand-over, and with a destructor-carrying payload; distinct = distinct (clear deliveries, snapshots, is_empty answers) outcome",
+        assumptions: &["E1: sequential consistency; E2: loom's C11 model (no SeqCst-fence weakening beyond what loom implements), Block::new built field by field instead of zeroed (loom atomics cannot be zero-initialised)", "scheduling points = every facade atomic / epoch-pointer operation + the slot write; other code between two points runs atomically", "BLOCK_SIZE = 64"],
         parts,
         run,
     });
